@@ -46,6 +46,12 @@ def load_seeded(prop):
         with open(mp, encoding="utf-8") as fh:
             meta = json.load(fh)
         caught = meta.get("caught_by", {})
+        if meta.get("kind") == "refactor":
+            # a behaviour-preserving refactoring of this property's code: the check must stay silent
+            if meta.get("property") == prop and not meta.get("undecided_by", {}).get(prop):
+                out.append({"id": "seed-" + d, "patch": os.path.join(root, d, "patch.diff"), "expect": "silent",
+                            "why": meta.get("summary", ""), "file": None})
+            continue
         if prop not in caught:
             continue
         out.append({"id": "seed-" + d, "patch": os.path.join(root, d, "patch.diff"), "expect": "fire",
